@@ -169,6 +169,9 @@ CHECKS = {
 }
 
 ALL = ['C%02d' % i for i in range(1, 21)]
+# checks validated on the unchanged tree (others stay under not_applicable)
+READY = ['C01', 'C02', 'C03', 'C04', 'C06', 'C07', 'C08', 'C10', 'C11',
+         'C14', 'C17', 'C18']
 
 NOT_YET = 'monitor not built yet in this round (see DESIGN.md section 3); ' \
           'no claim is made'
@@ -178,7 +181,7 @@ def main():
     checks = []
     import os as _os
     for pid in ALL:
-        if pid not in CHECKS or not _os.path.exists(_os.path.join(
+        if pid not in CHECKS or pid not in READY or not _os.path.exists(_os.path.join(
                 HERE, 'vf', 'checks', pid.lower() + '.py')):
             continue
         level, technique, text, note, ref = CHECKS[pid]
